@@ -202,6 +202,12 @@ def run_case(case):
                 if res["rebuilt"] != t["path"]:
                     bad("rebuild-differs", f"{res['rebuilt']!r} != {t['path']!r}", client=kind)
                     break
+                if "parsed_again" in res:
+                    bump("reparse_after_caller_wrote_into_result")
+                    if res["parsed_again"] != t["values"]:
+                        bad("parse-of-built-differs", f"second parse({t['path']!r}) = {res['parsed_again']} after the caller wrote into the first result; expected {t['values']}",
+                            client=kind, after_write=True)
+                        break
                 stop = False
                 for (cls, s), got in zip(t["non"], res["non"]):
                     bump("nonmatch_probes")
@@ -247,7 +253,18 @@ def in_runner(script):
                         o["built"] = build(**t["values"])
                         o["parsed"] = parse(t["path"])
                         o["rebuilt"] = build(**o["parsed"]) if set(o["parsed"]) == set(t["values"]) else None
-                        o["non"] = [parse(s) for _, s in t["non"]]
+                        # a caller may do as it likes with what a parse returned: every reply is recorded as a copy and the
+                        # returned object is then written into, so a later parse that hands out the same object shows it
+                        o["non"] = []
+                        for _, s in t["non"]:
+                            d = parse(s)
+                            o["non"].append(dict(d) if isinstance(d, dict) else d)
+                            if isinstance(d, dict):
+                                d["vp_scribble"] = s
+                        if isinstance(o["parsed"], dict):
+                            d, o["parsed"] = o["parsed"], dict(o["parsed"])
+                            d["vp_scribble"] = t["path"]
+                            o["parsed_again"] = parse(t["path"])
                 except BaseException as e:  # noqa
                     o["error"] = rt.exc_info(e)
                 trials.append(o)
